@@ -50,6 +50,22 @@ CHECKS = {
          'Theorem for every candidate list, score function, direction and initial temperature: stored temperature is a candidate with optimal score, recorded best = its score, recorded results = true scores, never worse than hard routing when a candidate <= 0 is present. '
          'The real fit_temperature runs on a manual tree with a scripted metric and is compared bit-exactly with the model; on real fits every recorded score is recomputed from predict/predict_proba.',
          'Trusted: Coq kernel + vm_compute (PrimFloat), scripted metric object patched into the harness process only, numpy metric re-implementations.'),
+
+ 'C12': ('DESIGN.md §4 C12',
+         'Coq proofs over Q lists (clamp/normalise gives a distribution with explicit lower bound, mixtures of distributions, argmax range, label = argmax via the C01 routing theorem) + vm_compute of the Q model on the implementation\'s raw leaf outputs',
+         'Theorems for every finite raw vector, K, eps in (0,1/2): the decoded row has K strictly positive entries summing to one; convex mixtures (tree mean, soft routing) of such rows sum to one; the label is a class id; for a single hard tree the label vector is the row-wise argmax of the probability matrix. '
+         'Real classification fits (2-6 classes, 95:5 imbalance, both encodings, all metrics, 1-3 trees incl. fewer trees built than requested, hard/soft, rows at 1e6) are checked row by row and decoded again by the Q model in Coq.',
+         'Trusted: Coq kernel + vm_compute, float32->Q printing (tolerance 3e-5). Kernel values are C05; the prior/zero decoding algebra is C13.'),
+ 'C13': ('DESIGN.md §4 C13',
+         'MathComp proof (matrix algebra over any ordered field) of the prevalence-code construction + Coq proofs over Q lists of decode validity / round trips + vm_compute checker on the converter\'s actual float32 matrices',
+         'Theorems for every K, every prior (zeros allowed), every Q meeting the QR contract: code matrix invertible, codes decode to unit vectors, zero decodes to the prior, codes equidistant (squared distance 2), decoding affine; explicit rational K=4 instance. Executable model: any finite vector decodes to a valid row; zero_one round trip; prevalence round trip for any matrices passing the checker. '
+         'The real converter (K 2..12, count grids incl. zeros and 1000:1) is compared with the model and its _C/_invA/_prior are checked in Coq.',
+         'Trusted: Coq kernel + vm_compute, MathComp 1.15, float32->Q printing; torch.linalg.qr / inv accuracy is checked per instance (converter_okb, delta 1e-4), not assumed.'),
+ 'C16': ('DESIGN.md §4 C16',
+         'Coq proofs over Q (and R for sqrt/ln) that every metric is bounded by its perfect-prediction value in the declared direction + vm_compute / interval correspondence of Metric.compute with the textbook definitions',
+         'Theorems: mse/mae/brier/log-loss >= 0 with 0 at perfect predictions, rmse monotone in mse; accuracy/F1/AUC <= 1 with 1 at perfect predictions (AUC with ties counted one half); direction table. '
+         'All 8 metrics are run on perfect, constant, adversarial, tied and random arrays and compared with the Q model in Coq (log-loss by interval lemmas) and with exact Fraction re-statements; flags compared exhaustively.',
+         'Trusted: Coq kernel + vm_compute, Interval tactic, real-number axioms; float32 tolerance 3e-6 relative; sklearn clipping below 1e-6 is outside the quantifier.'),
 }
 
 NOT_YET = 'check not built yet in this session (planned, see DESIGN.md §4)'
